@@ -65,7 +65,7 @@ Proof. exact decode_flag_not_object. Qed.
 Print Assumptions C17_not_an_object_is_error.
 
 (* every property the encoder writes is one the decoder recognises (gen/Tables.v, regenerated on every run) *)
-From LD Require Import TablesProof.
+From LD Require Import TablesJson.
 From LDGen Require Import Tables.
 From Coq Require Import String.
 Theorem C17_written_properties_are_read :
